@@ -84,7 +84,9 @@ func iRun(h iHistory, dir string) (viol []iViolation) {
 			}
 			select {
 			case err := <-done:
-				if h.Transport != "tcp" {
+				// (on a loaded machine an unvisited service may have served its whole
+				// idle period before this loop saw its listener: that is the timeout)
+				if _, timedOut := err.(varlink.ServiceTimeoutError); !timedOut && h.Transport != "tcp" {
 					fail("transport", "listen-failed", "%s: %v", addr, err)
 				}
 				return
